@@ -251,6 +251,7 @@ class Lane:
         self.restarts = 0
         self.load_exc = None
         self.load_tb = None
+        self._config_cache = {}
         self.old_results = []  # frame results of earlier manager generations (one "scene" each)
         self.old_egos = []
         self.aborted = False
@@ -260,7 +261,7 @@ class Lane:
         ctx = self.ctx
         key = tuple(sorted((self.token_map or {}).items()))
         if key not in ctx.dataset_written:
-            d = os.path.join(ctx.root, "ds%d" % len(ctx.dataset_written))
+            d = os.path.join(ctx.root, "ds%d" % len([n for n in os.listdir(ctx.root) if n.startswith("ds")]))
             st = dict(ctx.plan["storage"])
             if self.token_map:
                 st["token_map"] = self.token_map
@@ -293,6 +294,18 @@ class Lane:
         for m in self.monitors:
             m.on_load(ctx, self, self.manager, self.generation)
         return self.manager
+
+    def _config_object(self, kind, spec, maker):
+        """Per-delivery configuration objects: rebuilt every time, or (plan flag) one object per distinct spec that is
+        handed to every delivery using that spec, as a driver keeping its configs around would do."""
+        import json as _json
+
+        if not self.ctx.plan.get("reuse_configs"):
+            return maker(self.ctx.R, self.config, spec)
+        key = (kind, self.generation, _json.dumps(spec, sort_keys=True))
+        if key not in self._config_cache:
+            self._config_cache[key] = maker(self.ctx.R, self.config, spec)
+        return self._config_cache[key]
 
     # -- estimates ------------------------------------------------------------------------------------
     def render_estimates(self, msg, ego_ref, stamp):
@@ -388,8 +401,8 @@ class Lane:
         st.estimates, st.est_info = self.render_estimates(msg, st.ego_ref, msg["stamp"])
         st.crit_spec = op.get("crit") or plan["crit_default"]
         st.pf_spec = op.get("pf") or plan["pf_default"]
-        st.crit = make_crit(R, self.config, st.crit_spec)
-        st.pf = make_pf(R, self.config, st.pf_spec)
+        st.crit = self._config_object("crit", st.crit_spec, make_crit)
+        st.pf = self._config_object("pf", st.pf_spec, make_pf)
         st.n_results_before = len(self.manager.frame_results)
         st.gt_snapshot = list(frame.objects)
         est_before = list(st.estimates)
